@@ -391,6 +391,66 @@ def rows_with_units(rep):
     rep.nontrivial.add('rows-with-units')
 
 
+def chunked_rows(rep, scratch):
+    """Breakdown.tla (an extension of C12 to the emitter that stores a large row in
+    pieces): every datum x limit of the table is broken down by the real
+    breakdown_data, the pieces are written under their paths and merged the way
+    write_emit / assemble_data do, and the result must hold exactly the leaves
+    the specification says can be stored, with their values, none of them twice."""
+    from vv import table
+    from vivarium.core.emitter import breakdown_data, assemble_data
+    from vivarium.library.topology import assoc_path
+    cases = table.run_table(
+        rep, 'Breakdown', 'Breakdown',
+        table.cfg({'Sizes': '{1, 4, 9}', 'Limits': '{3, 8, 14, 40}'},
+                  ['LawAssembleGivesBack', 'LawPiecesDisjoint', 'LawPieceUnderPath',
+                   'LawPiecesFit']), scratch)
+
+    def leaves(d, prefix=()):
+        out = {}
+        for k, v in d.items():
+            if isinstance(v, dict):
+                out.update(leaves(v, prefix + (k,)))
+            else:
+                out[prefix + (k,)] = v
+        return out
+    for c in cases:
+        rep.evaluations += 1
+        data = {}
+        for path, size in c['leaves']:
+            cur = data
+            for k in path[:-1]:
+                cur = cur.setdefault(k, {})
+            cur[path[-1]] = int('7' * size)           # len(str(value)) == size
+        import contextlib
+        import io
+        with contextlib.redirect_stdout(io.StringIO()):
+            pieces = breakdown_data(c['limit'], json.loads(json.dumps(data)))
+        docs = []
+        for path, datum in pieces:
+            d = {}
+            assoc_path(d, tuple(path), datum)
+            docs.append({'assembly_id': 'x', 'data': d if path else datum})
+        try:
+            got = leaves(assemble_data(docs).get('x', {})) if docs else {}
+        except Exception as e:
+            rep.violation({'kind': 'chunks', 'what': 'overlap'},
+                          'C12 (chunked rows) the pieces of %r at limit %d cannot be merged: %r'
+                          % (data, c['limit'], e), {'case': c})
+            continue
+        want = {tuple(p): int('7' * dict((tuple(q), sz) for q, sz in c['leaves'])[tuple(p)])
+                for p in (c['stored'] or [])}
+        if got != want:
+            rep.violation({'kind': 'chunks', 'limit': c['limit'],
+                           'leaves': json.dumps(c['leaves'])},
+                          'C12 (chunked rows) breaking %r down at limit %d and assembling the '
+                          'pieces gives the leaves %r, Breakdown.tla says %r'
+                          % (data, c['limit'], sorted(got), sorted(want)), {'case': c})
+        if len(pieces) > 1:
+            rep.nontrivial.add('chunks-%s-%d' % (json.dumps(c['leaves']), c['limit']))
+    rep.notes['chunked_row_cases'] = len(cases)
+
+
 def cyclic_flows(rep):
     """C05 quantifies over flows that are DAGs; a flow with a cycle has no order
     in which 'a step runs only after all steps it depends on', and an unknown
@@ -588,6 +648,7 @@ def check(prop, tier, seed):
             cyclic_flows(rep)
         if prop == 'C12':
             rep.guard(rows_with_units, rep, what='rows with units and serializers')
+            rep.guard(chunked_rows, rep, scratch, what='chunked rows')
         if prop == 'C05':
             # steps created, moved and deleted at run time (also by a step, during the
             # phase): what every step saw of its upstream step, per tick
